@@ -147,6 +147,16 @@ fn run(case: &Val) -> Val {
     static TURN: std::sync::atomic::AtomicUsize = std::sync::atomic::AtomicUsize::new(0);
     let turn = TURN.fetch_add(1, std::sync::atomic::Ordering::SeqCst);
     let mut _original: Option<FixedWindowRoller> = None;
+    // every fifth case a SIBLING is alive: another roller with the same pattern and base and a larger count, never
+    // rolled (as after a configuration reload that changed `count`): a roller's window is its own
+    let _sibling: Option<FixedWindowRoller> = if kind == 0 && turn % 5 == 4 {
+        FixedWindowRoller::builder()
+            .base(u32::try_from(base).expect("base is a u32"))
+            .build(&pattern, u32::try_from(count).expect("count is a u32").saturating_add(3))
+            .ok()
+    } else {
+        None
+    };
     let roller: Box<dyn Roll> = if kind == 0 {
         match FixedWindowRoller::builder()
             .base(u32::try_from(base).expect("base is a u32"))
@@ -182,6 +192,14 @@ fn run(case: &Val) -> Val {
     let mut out = vec![];
     for op in c[8].l() {
         let op = op.l();
+        if op[0].n() == 2 {
+            // the process changes an environment variable between two rolls of the same roller
+            std::env::set_var(op[1].str(), op[2].str());
+            if !scope.env.contains(&op[1].str()) {
+                scope.env.push(op[1].str());
+            }
+            continue;
+        }
         if op[0].n() != 0 {
             if odd_name {
                 if let Some(parent) = actual.parent() {
